@@ -288,6 +288,9 @@ def run(ctx: Context, rep) -> None:
            where=rec.qualname, construct="compare -> parse",
            message="the digest comparison precedes parsing the list file")
 
+    from sa.rules.c04 import check_fresh_records
+    check_fresh_records(ctx, rep, "C05.fresh")
+
     rep.rule(
         "C05.same-walk",
         "check() enumerates shards through the same shard_info_iterator the "
